@@ -261,6 +261,23 @@ def main(tier, seed, replay=None):
     # "all enumerate them in sorted order": every enumeration path over a set / map gives what the same path gives over the ascending list
     # (elements whose ascending order differs from the order of their texts, of their hashes and of their insertion)
     asc_n = ascending(rep, rnd)
+    # module objects: the order of their members (the definition order of the module) shows in rendering, iteration and in which of two
+    # imports under one name wins
+    modprogs = ["require Set; string(Set)", "require Set; [k for k in keys Set]", "require Set; def r = []; for x in Set do append(r, string(x)) end; r",
+                "require List; [k for k in keys List]", "require String as S; string([e[0] for e in entries S])", "require List import [first as pick, last as pick]; pick([1, 2, 3])",
+                "require Stat; string(Stat)", "require Math; [k for k in keys Math]", "require Set; require List; string([Set, List])", "require Type; def r = []; for k in keys Type do append(r, k) end; r",
+                "require Set unqualified; string([union, diff])", "require Date; length(string(Date))", "require Set; string(object(Set))", "require Set; string(map(Set))"]
+    modres = {sd: run_seed(modprogs, sd, False) for sd in seeds}
+    mdis = 0
+    for k, prog in enumerate(modprogs):
+        rep.count(len(seeds))
+        for sd in seeds[1:]:
+            if modres[sd][k] != modres[seeds[0]][k]:
+                mdis += 1
+                rep.violation("input", "%s gives %s under PYTHONHASHSEED=%s but %s under PYTHONHASHSEED=%s" % (prog, modres[sd][k], sd, modres[seeds[0]][k], seeds[0]),
+                              check="seed", program=prog, seeds=[seeds[0], sd])
+                break
+    rep.oblige("module objects: %d programs that look at the members of module objects give identical results under %d hash seeds" % (len(modprogs), len(seeds)), mdis == 0, "%d disagreements" % mdis)
     base = results[seeds[0]]
     dis = 0
     three = 0
